@@ -22,6 +22,30 @@ struct Scenario {
     ticket_at: Option<usize>,
     #[serde(default)]
     spend_from_key: bool,
+    /// the listed key is touched only through zero-amount slips
+    #[serde(default)]
+    zero: bool,
+    /// 0: [touch]; 1..: several keys in the list (two of them touched, alternating), in different orders
+    #[serde(default)]
+    keylist: usize,
+}
+
+fn keylist_for(scn: &Scenario, touch: &Key, touch2: &Key) -> Vec<[u8; 33]> {
+    let (a, z) = (key(41).public, key(42).public);
+    match scn.keylist {
+        0 => vec![touch.public],
+        1 => vec![a, touch.public, touch2.public],
+        2 => vec![touch2.public, touch.public, a],
+        3 => vec![z, touch.public, a, touch2.public],
+        4 => vec![touch.public, touch2.public, touch.public],
+        _ => {
+            // descending byte order
+            let mut v = vec![a, z, touch.public, touch2.public];
+            v.sort();
+            v.reverse();
+            v
+        }
+    }
 }
 
 fn subtree_hash(leaves: &[SaitoHash]) -> SaitoHash {
@@ -33,7 +57,7 @@ fn subtree_hash(leaves: &[SaitoHash]) -> SaitoHash {
     hash(&[subtree_hash(l), subtree_hash(r)].concat())
 }
 
-fn make_block(scn: &Scenario, payer: &Key, touch: &Key, other: &Key, creator: &Key) -> Block {
+fn make_block(scn: &Scenario, payer: &Key, touch1: &Key, touch2: &Key, other: &Key, creator: &Key) -> Block {
     let mut block = Block::new();
     block.id = 7;
     block.timestamp = 1_700_000_000_000;
@@ -41,11 +65,32 @@ fn make_block(scn: &Scenario, payer: &Key, touch: &Key, other: &Key, creator: &K
     block.creator = creator.public;
     block.burnfee = 50_000_000;
     block.difficulty = 3;
+    // every header value distinct and non-zero, so that a field copied from the wrong place shows
     block.treasury = 11;
     block.graveyard = 13;
     block.total_fees = 17;
     block.avg_total_fees = 19;
+    block.avg_fee_per_byte = 23;
+    block.avg_nolan_rebroadcast_per_block = 29;
+    block.previous_block_unpaid = 31;
+    block.avg_total_fees_new = 37;
+    block.avg_total_fees_atr = 41;
+    block.avg_payout_routing = 43;
+    block.avg_payout_mining = 47;
+    block.avg_payout_treasury = 53;
+    block.avg_payout_graveyard = 59;
+    block.avg_payout_atr = 61;
+    block.total_payout_routing = 67;
+    block.total_payout_mining = 71;
+    block.total_payout_treasury = 73;
+    block.total_payout_graveyard = 79;
+    block.total_payout_atr = 83;
+    block.total_fees_new = 89;
+    block.total_fees_atr = 97;
+    block.fee_per_byte = 101;
+    block.total_fees_cumulative = 103;
     for i in 0..scn.n {
+        let touch = if scn.keylist > 0 && i % 2 == 1 { touch2 } else { touch1 };
         let mut tx = Transaction::default();
         tx.timestamp = 1_700_000_000_000 + i as u64;
         tx.data = format!("payload-{}", i).into_bytes();
@@ -53,12 +98,23 @@ fn make_block(scn: &Scenario, payer: &Key, touch: &Key, other: &Key, creator: &K
         // the listed key can be touched as recipient or as spender
         input.public_key = if scn.keep[i] && scn.spend_from_key { touch.public } else { payer.public };
         input.amount = 1000 + i as u64;
+        if scn.zero && scn.keep[i] && scn.spend_from_key {
+            input.amount = 0;
+        }
         input.block_id = 3;
         input.tx_ordinal = i as u64;
         tx.add_from_slip(input);
         let mut out = Slip::default();
         out.public_key = if scn.keep[i] && !scn.spend_from_key { touch.public } else { other.public };
         out.amount = 1000 + i as u64;
+        if scn.zero && scn.keep[i] && !scn.spend_from_key {
+            // a message addressed to the key: zero-amount output, the value goes elsewhere
+            out.amount = 0;
+            let mut val = Slip::default();
+            val.public_key = other.public;
+            val.amount = 1000 + i as u64;
+            tx.add_to_slip(val);
+        }
         tx.add_to_slip(out);
         if scn.ticket_at == Some(i) {
             tx.transaction_type = TransactionType::GoldenTicket;
@@ -74,17 +130,16 @@ fn make_block(scn: &Scenario, payer: &Key, touch: &Key, other: &Key, creator: &K
     block
 }
 
+/// the whole header as it is serialised (every field)
 fn header_tuple(b: &Block) -> Value {
-    json!([b.id, b.timestamp, hex::encode(b.previous_block_hash), hex::encode(b.creator), hex::encode(b.merkle_root),
-           hex::encode(b.signature), b.graveyard, b.treasury, b.burnfee, b.difficulty, b.total_fees, b.avg_total_fees,
-           b.previous_block_unpaid, b.avg_fee_per_byte, b.total_fees_cumulative])
+    json!(hex::encode(b.serialize_for_net(BlockType::Header)))
 }
 
 fn main() {
     let args: Vec<String> = std::env::args().collect();
     install_panic_recorder();
     let mut trace = Trace::create(&args[2]);
-    let (payer, touch, other, creator) = (key(31), key(32), key(33), key(34));
+    let (payer, touch, other, creator, touch2) = (key(31), key(32), key(33), key(34), key(35));
     let f = BufReader::new(std::fs::File::open(&args[1]).expect("scenarios"));
     let mut count = 0;
     trace.emit(json!({"ev": "Reset", "scn": 0}));
@@ -94,10 +149,10 @@ fn main() {
             continue;
         }
         let scn: Scenario = serde_json::from_str(&line).expect("scenario");
-        let full = make_block(&scn, &payer, &touch, &other, &creator);
+        let full = make_block(&scn, &payer, &touch, &touch2, &other, &creator);
         let leaves: Vec<SaitoHash> = full.transactions.iter().map(|t| t.hash_for_signature.unwrap()).collect();
         let r = guarded(|| {
-            let lite = full.generate_lite_block(vec![touch.public]);
+            let lite = full.generate_lite_block(keylist_for(&scn, &touch, &touch2));
             // what the light client receives
             let bytes = lite.serialize_for_net(BlockType::Full);
             let mut wire = Block::deserialize_from_net(&bytes).expect("lite block decodes");
